@@ -35,7 +35,10 @@ impl Prop for SizeAlign {
             return Outcome::fail(kind, d);
         }
         if !run.out.errors.is_empty() {
-            return Outcome::discard("crate-does-not-compile (C13's business)");
+            let mut codes: Vec<String> = run.out.errors.iter().map(|d| d.code.clone()).collect();
+            codes.sort();
+            codes.dedup();
+            return Outcome::discard(&format!("crate-does-not-compile (C13's business): {}", codes.join("+")));
         }
         let mut o = Outcome::pass(st.used_by_value_odd).class(&format!("width:{}", c.w));
         for (k, v) in [("enums", st.enums > 0), ("externs", st.externs > 0), ("vptr", st.vptr), ("bases", st.bases), ("cross_module", st.cross_module)] {
@@ -56,5 +59,5 @@ pub fn props() -> Vec<Box<dyn DynProp>> {
 
 pub fn run(ctx: &mut Ctx) {
     let q = ctx.quick();
-    ctx.run(&SizeAlign, &Params::new(if q { 800 } else { 40_000 }, 200, 3000).shrink(120));
+    ctx.run(&SizeAlign, &Params::new(if q { 4000 } else { 120_000 }, 200, 3000).shrink(120));
 }
